@@ -378,7 +378,8 @@ type UintArg struct {
 }
 
 func (a *UintArg) Parse() error {
-	i, e := strconv.ParseUint(string(a.arg), 0, 32)
+	// decimal only: base 0 would also accept 0x10, 0b11, 010 and 1_0
+	i, e := strconv.ParseUint(string(a.arg), 10, 32)
 	if e != nil {
 		return e
 	}
@@ -392,7 +393,7 @@ type IntArg struct {
 }
 
 func (a *IntArg) Parse() error {
-	i, e := strconv.ParseInt(string(a.arg), 0, 32)
+	i, e := strconv.ParseInt(string(a.arg), 10, 32)
 	if e != nil {
 		return e
 	}
